@@ -228,13 +228,28 @@ func clientReceives(p *core.Program) []*ast.FuncDecl {
 		if !ok {
 			continue
 		}
-		for i := 0; i < st.NumFields(); i++ {
-			if ft := astx.NamedOf(derefType(st.Field(i).Type())); ft != nil && ft.Obj().Name() == "duplexHTTPCall" {
-				out = append(out, fd)
-			}
+		if holdsDuplexCall(st, 0) {
+			out = append(out, fd)
 		}
 	}
 	return out
+}
+
+// holdsDuplexCall: the struct has a duplexHTTPCall field, its own or that of an embedded struct.
+func holdsDuplexCall(st *types.Struct, depth int) bool {
+	for i := 0; i < st.NumFields(); i++ {
+		ft := astx.NamedOf(derefType(st.Field(i).Type()))
+		if ft == nil {
+			continue
+		}
+		if ft.Obj().Name() == "duplexHTTPCall" {
+			return true
+		}
+		if inner, ok := ft.Underlying().(*types.Struct); ok && st.Field(i).Embedded() && depth < 2 && holdsDuplexCall(inner, depth+1) {
+			return true
+		}
+	}
+	return false
 }
 
 func setErrorLast(c *core.Ctx) {
